@@ -250,12 +250,15 @@ def trust_part(job, r):
         # file specific constraints (KSI_PublicationsFile_setCertConstraints) take the place of the context's defaults; cleared again
         # (NULL) the defaults count. The expectation below is computed from whatever set is in force at verification time.
         fs = None
-        if i >= 4 and rng.random() < 0.35:
-            fs_kind = rng.choice(['email', 'email', 'email-off', 'cn-off'])
-            fs_set = {'email': {EMAIL: subj[EMAIL]}, 'email-off': {EMAIL: 'nobody@guardtime.test'}, 'cn-off': {CN: 'pub.exampl'}}[fs_kind]
+        if i >= 4 and rng.random() < 0.5:
+            # ('empty': an array that holds the terminator only - file specific constraints are configured, and there is not one of them)
+            fs_kind = rng.choice(['email', 'email', 'email-off', 'cn-off', 'empty', 'empty'])
+            fs_set = {'email': {EMAIL: subj[EMAIL]}, 'email-off': {EMAIL: 'nobody@guardtime.test'}, 'cn-off': {CN: 'pub.exampl'}, 'empty': {}}[fs_kind]
             q2 = c('pubfileconstraints 0 ' + ' '.join('%s=%s' % kv for kv in fs_set.items()))
             fs = (fs_kind, fs_set)
-            if rng.random() < 0.5:
+            if fs_kind == 'empty':
+                r.count('file_specific_constraints_empty_set')
+            elif rng.random() < 0.5:
                 q2 = c('pubfileconstraints 0 clear')
                 if q2.rc != 0 or q2.get('nfile') not in ('-1', '0'):
                     r.viol('constraints:file-specific-not-cleared', 'KSI_PublicationsFile_setCertConstraints(pf, NULL): rc=%#x, %s file specific constraint(s) still reported' % (q2.rc, q2.get('nfile')), '')
